@@ -239,6 +239,15 @@ def random_steps(rng, n):
                 steps.append(['slice', -k, stop, None])
                 n = k
                 continue
+            if step is None and n >= 2 and rng.random() < 0.1:
+                # start after stop: the empty selection (list / numpy / pandas semantics), not an error
+                a = rng.randint(1, n)
+                b = rng.randint(0, a - 1)
+                if rng.random() < 0.4:
+                    a, b = a - n - (1 if a == n else 0), b - n       # the same positions counted from the end
+                steps.append(['slice', a, b, None])
+                n = len(range(n)[a:b])
+                continue
             if step == -1:
                 steps.append(['slice', None, None, -1])
             else:
